@@ -354,7 +354,7 @@ def run_scenario(sc, work, seed, alt=False):
         by_name = {type_name(t): t for t in all_types}
         sel = [by_name[n] for n in run["types"]] if run.get("types") is not None else list(all_types)
         cfg_l = json.dumps([lang, run.get("langopts") or {}], sort_keys=True)
-        cfg_g = json.dumps([cfg_l, run.get("pps") or {}, bool(run.get("tap", True)), run["d"], run.get("types")], sort_keys=True)
+        cfg_g = json.dumps([cfg_l, run.get("pps") or {}, bool(run.get("tap", True)), run["d"], run.get("types"), run.get("ws")], sort_keys=True)
         # reuse only what was really built with the same configuration (the key is computed from the run's own fields)
         same_gen = run.get("gen") == "same" and prev is not None and prev["cfg_g"] == cfg_g
         same_lctx = (same_gen or run.get("lctx") == "same") and prev is not None and prev["cfg_l"] == cfg_l
@@ -399,6 +399,8 @@ def run_scenario(sc, work, seed, alt=False):
                 _cur["sink"](p)
 
             pps.append(Rec(st, sink))
+            if run.get("ws") is not None:   # whitespace control of the template engine: an option of the run like any other
+                kw = dict(kw, trim_blocks=bool(run["ws"][0]), lstrip_blocks=bool(run["ws"][1]))
             gen = DSDLCodeGenerator(ns, post_processors=pps, **kw)
             st.gen = gen
             cur["gen"] = gen
@@ -408,7 +410,7 @@ def run_scenario(sc, work, seed, alt=False):
         embed = bool(run.get("embed", False))
         limobj = st.limiter()
         lim_n = getattr(limobj, "_max_empty_lines", None) if limobj is not None else None
-        optkey = "s%d|%s" % (sc["sid"], json.dumps([lang, run.get("langopts") or {}, run.get("pps") or {}, bool(run.get("tap", True)), omit], sort_keys=True))
+        optkey = "s%d|%s" % (sc["sid"], json.dumps([lang, run.get("langopts") or {}, run.get("pps") or {}, bool(run.get("tap", True)), omit] + ([run["ws"]] if run.get("ws") is not None else []), sort_keys=True))
         tplkey = tpl["id"] if tpl["id"] == "builtin" else json.dumps(tpl, sort_keys=True)
         produced = []
         state = {"ord": 0}
@@ -982,9 +984,13 @@ def canonical_scenarios(sid0):
             runs.append(dict(runs[-1], lctx="same", gen="same", omit=False))
             runs += [mk(0, ["vr.n1.L0x.1.0", "vr.k9.T2.1.0"]), mk(0, ["vr.k9.T2.1.0", "vr.n1.L0x.1.0"], lctx="same"),
                      mk(0, ["vr.n1.L0x.1.0"]), mk(0, ["vr.V.1.0", "vr.n1.L0x.1.0"]), mk(0, ["vr.n1.L0y.1.0", "vr.V.1.1"], lctx="same"),
-                     mk(1, lctx="same"), mk(1), mk(0, lctx="same"), mk(0, omit=True), mk(0)]
+                     mk(1, lctx="same"), mk(1), mk(0, lctx="same"), mk(0, omit=True), mk(0),
+                     # the template engine's whitespace control differs between runs of one process / one context (compiled templates must not be shared)
+                     mk(0, ws=[1, 1]), mk(0, lctx="same", ws=[0, 1]), mk(0, lctx="same"), mk(0, lctx="same", ws=[1, 1]), mk(0, ws=[1, 0]), mk(0, ws=[0, 1]), mk(0)]
+            # second interpreter: the runs with other whitespace control come FIRST there (whoever fills a process-wide store first wins in each)
+            order_b = [i for i, r in enumerate(runs) if r.get("ws") is not None] + [i for i, r in enumerate(runs) if r.get("ws") is None]
             res.append({"sid": sid0 + len(res), "kind": "canonical", "defsets": [defs, edited], "rootns": "vr", "lookup": ["vl"], "tpl": {"id": "builtin"},
-                        "names": {}, "runs": runs})
+                        "names": {}, "runs": runs, "order_b": order_b})
     return res
 
 
